@@ -459,7 +459,7 @@ PROPS = {
         "timeout": {"quick": 900, "thorough": 3000},
     },
     "C15": {
-        "lean": ["Knut.Properties.C15", "Knut.Properties.C15Parse", "Knut.FactsAgree.TransPrinter", "Knut.FactsAgree.TransPrinter2", "Knut.FactsAgree.TransPrinter3", "Knut.FactsAgree.TransBayes", "Knut.FactsAgree.TransBayes2", "Knut.FactsAgree.TransBayes3", "Knut.FactsAgree.TransBayes4"],
+        "lean": ["Knut.Properties.C15", "Knut.Properties.C15Parse", "Knut.FactsAgree.TransPrinter", "Knut.FactsAgree.TransPrinter2", "Knut.FactsAgree.TransPrinter3", "Knut.FactsAgree.TransBayes", "Knut.FactsAgree.TransBayes2", "Knut.FactsAgree.TransBayes3", "Knut.FactsAgree.TransBayes4", "Knut.Properties.C15Go"],
         "level": "proof",
         "claim": "Proof (for every score function: the float evaluation is a parameter, see note) + full correspondence. Lean theorems over a model of lib/syntax/bayes (Update/update/tokenize/Infer/inferAccount/scoreCandidate, count tables as "
                  "association lists) and of inferRunner.execute (train on every reachable file, Infer on the target tree, syntax.FormatFile), proved for EVERY score function and comparison "
